@@ -483,7 +483,7 @@ fn word_emit(xs: &mut Xstate) -> Xresult {
     let out_ref = xs.bitstr_mod.output;
     let len_ref = xs.bitstr_mod.output_len;
     xs.update_var(len_ref, |old| {
-        let new_len = old.to_usize()? + bs.len();
+        let new_len = old.to_usize()?.checked_add(bs.len()).ok_or_else(|| Xerr::IntegerOverflow)?;
         Ok(Cell::from(new_len))
     })?;
     let out = xs.get_var(out_ref)?;
